@@ -7,6 +7,35 @@ HERE = Path(__file__).resolve().parent.parent
 
 # id: (level, technique, level text, level note)
 CHECKS = {
+ 'C06': ('exploration',
+         'complete enumeration of generated programs; Python-family code executed, foreign code decided by strict template parsers + reference interpreters with own token tables; directory snapshots',
+         'All 13 types x 2 byte orders x 9 shapes x 12 languages x 3 path modes are generated from real arrays of pairwise '
+         'distinct values. numpy/numpymemmap/python/darr snippets are executed with the working directory the path mode '
+         'implies and compared bitwise; R/Matlab/Scilab/Julia/IDL/Mathematica/Maple programs must match a strict template '
+         '(else malformed) and are evaluated by a reference interpreter written from the languages\' documentation: the '
+         'result must be the stored array (row-major) or its transpose (column-major) with the same element type. Offer '
+         'table and readcodelanguages are compared with an own transcription of docs/readcode.rst; snapshots show that '
+         'running code changes no file, also on empty arrays.',
+         'No foreign interpreter exists in the sandbox: the reference semantics are our transcription (DESIGN Appendix A) - a misunderstanding on our side is the residual risk.'),
+ 'C07': ('exploration',
+         'enumeration of ragged programs; per-language accessor template parsed and evaluated for every k under the language\'s indexing rules; darr/numpymemmap executed',
+         'For ragged arrays over value type x index type x byte order x atom rank 0-3 x subarray-length patterns (incl. empty '
+         'subarrays, 1/2/3/7 subarrays) each offered program is split into index-read block, values-read block (C06 '
+         'interpreters), accessor and example; the accessor is evaluated for every valid k with the language\'s index origin, '
+         'end inclusiveness and axis order and must return exactly subarray k (empty ones with the right dimensions); the '
+         'example must announce and bind the same existing subarray; offered iff values and index type are supported; '
+         'executed snippets must leave the directory byte-identical.',
+         'Reference semantics are our transcription; shapes compared after dropping singleton dimensions for column-major '
+         'languages; index-arithmetic overflow and the R 2^31 cut-off are not modelled.'),
+ 'C15': ('exploration',
+         'NumPy cast reference + independent decoder for copies; post-copy mutation of one side with snapshot of the other; tar extraction compared byte-for-byte',
+         'Generated Array and RaggedArray sources (all types, both byte orders, empty first axis, no / only-empty subarrays) are '
+         'copied with every kind of dtype argument, chunk length, access mode and metadata; the copy must equal '
+         'src.astype(dtype) through returned handle, fresh handle and raw files, with identical metadata. One side is then '
+         'mutated (assign, append, metadata, truncate, delete) while a byte snapshot and re-read of the other side must not '
+         'change. Archives for xz/gz/bz2 are extracted with tarfile and compared byte-for-byte with the directory, '
+         're-opened, and the overwrite gate is exercised.',
+         'Platform-defined casts are not requested; the index type of a ragged copy is not judged.'),
  'C17': ('fault_enumeration',
          'sys.monitoring LINE-event crash-point recorder (directory snapshot between every two executed Darr lines) + synthesised torn writes; offline check of every materialised state',
          'For each scenario (append, iterappend, iterappend with failing iterable / bad chunk, truncate, four metadata changes) '
